@@ -14,6 +14,7 @@ import (
 
 	"verif/internal/c02"
 	"verif/internal/c08"
+	"verif/internal/c10"
 	"verif/internal/chancheck"
 	"verif/internal/evidence"
 	"verif/internal/synccheck"
@@ -107,6 +108,8 @@ func check(id, tier string) int {
 		return c02.Run(tier, seed(), workers())
 	case "C08":
 		return c08.Run(tier, seed(), workers())
+	case "C10":
+		return c10.Run(tier, seed(), workers())
 	}
 	fmt.Fprintf(os.Stderr, "unknown property %q\n", id)
 	return 2
@@ -118,6 +121,8 @@ func replay(rp *evidence.Replay) int {
 		return c02.Replay(rp)
 	case "program:C08":
 		return c08.Replay(rp)
+	case "program:C10":
+		return c10.Replay(rp)
 	case "chanscript":
 		return chancheck.Replay(rp)
 	case "syncscript":
